@@ -1,13 +1,30 @@
+STUBS = [
+    '_ZN35MockExpectedCallsDidntHappenFailureC2EP10UtestShellRK21MockExpectedCallsList',
+    '_ZN33MockUnexpectedCallHappenedFailureC2EP10UtestShellRK12SimpleStringRK21MockExpectedCallsList',
+    '_ZN20MockCallOrderFailureC2EP10UtestShellRK21MockExpectedCallsList',
+    '_ZN35MockUnexpectedInputParameterFailureC2EP10UtestShellRK12SimpleStringRK14MockNamedValueRK21MockExpectedCallsList',
+    '_ZN36MockUnexpectedOutputParameterFailureC2EP10UtestShellRK12SimpleStringRK14MockNamedValueRK21MockExpectedCallsList',
+    '_ZN39MockExpectedParameterDidntHappenFailureC2EP10UtestShellRK12SimpleStringRK21MockExpectedCallsListS7_',
+    '_ZN35MockNoWayToCompareCustomTypeFailureC2EP10UtestShellRK12SimpleString',
+    '_ZN32MockNoWayToCopyCustomTypeFailureC2EP10UtestShellRK12SimpleString',
+    '_ZN27MockUnexpectedObjectFailureC2EP10UtestShellRK12SimpleStringPKvRK21MockExpectedCallsList',
+    '_ZN36MockExpectedObjectDidntHappenFailureC2EP10UtestShellRK12SimpleStringRK21MockExpectedCallsList',
+    '_ZN10UtestShell4failEPKcS1_mRK14TestTerminator',
+    '_ZN10UtestShell8failWithERK11TestFailureRK14TestTerminator',
+]
+def ob(script, **kw):
+    d = {'fn': 'harness_' + script, 'unwind': 24, 'timeout': 600, 'bounds': script, 'optional_witness': ['failure path'],
+         'cbmc_flags': ['--max-field-sensitivity-array-size', '256']}
+    d.update(kw)
+    return d
 SPEC = {
     'property': 'C08',
     'functions_of_interest': ['MockSupport', 'MockCheckedActualCall', 'MockCheckedExpectedCall', 'MockExpectedCallsList'],
     'assumptions': [],
     'groups': [{
         'name': 'mock', 'wrapper': 'w08.cpp', 'harness': 'h08.c',
-        'config': {'ext': True, 'heapcheck': False,
-                   'empty_regex': ['^_ZN11MockFailure29addExpectationsAndCallHistory', '^_ZN11MockFailure38addExpectationsAndCallHistoryRelatedTo']},
-        'obligations': [
-            {'fn': 'harness_v0', 'unwind': 60, 'timeout': 600, 'cbmc_flags': ['--max-field-sensitivity-array-size', '256'], 'bounds': 'v0', 'optional_witness': ['failure path']},
-        ],
+        'config': {'ext': True, 'heapcheck': False, 'stubs': STUBS},
+        'defines': ['-DKF_C08_1'],
+        'obligations': [ob(s) for s in ['ap__ap', 'ap__aq', 'a__b']],
     }],
 }
